@@ -30,9 +30,10 @@ N == [k |-> "nil"]
 L == [k |-> "list"]                       \* the list [1]
 M == [k |-> "map"]                        \* the map {"a": 1}
 V == [k |-> "void"]                       \* "no value": what an attribute expression such as a.b evaluates to
+U == [k |-> "unconv"]                     \* a list with no text form (it holds an infinity): a field given it holds nil, a tag keeps its value
 
-ArgValues == IF Rich THEN {I(7), F(15), B(TRUE), S("x"), S("12"), N, L, M, V}   \* what a script passes to add_key
-             ELSE {I(7), F(15), B(TRUE), S("x"), N, L, V}
+ArgValues == IF Rich THEN {I(7), F(15), B(TRUE), S("x"), S("12"), N, L, M, V, U}   \* what a script passes to add_key
+             ELSE {I(7), F(15), B(TRUE), S("x"), N, L, V, U}
 
 Tenths(t) == IF t % 10 = 0 THEN ToString(t \div 10)
              ELSE ToString(t \div 10) \o "." \o ToString(t % 10)
@@ -82,13 +83,14 @@ Get(k) == IF ~Has(k) THEN [k |-> "absent"]
                  ELSE (IF k \in DOMAIN tags THEN S(tags[k]) ELSE N)
 
 \* stored form of a value written to a field
-Stored(v) == IF v.k \in {"list", "map"} THEN S(ToStr(v)) ELSE IF v.k = "void" THEN N ELSE v
+Stored(v) == IF v.k \in {"list", "map"} THEN S(ToStr(v)) ELSE IF v.k \in {"void", "unconv"} THEN N ELSE v
 
 \* Point.Set
 SetP(k, v) ==
   IF Has(k) /\ meta[k].flag = "tag"
     THEN \* a tag given "no value" is gone from the point; the key stays known as a tag (a later write makes it a tag again)
-         /\ tags' = (IF v.k = "void" THEN Drop(tags, k) ELSE Put(tags, k, ToStr(v))) /\ UNCHANGED <<meta, fields>>
+         /\ tags' = (IF v.k = "void" THEN Drop(tags, k) ELSE IF v.k = "unconv" THEN tags ELSE Put(tags, k, ToStr(v)))
+         /\ UNCHANGED <<meta, fields>>
     ELSE /\ fields' = Put(fields, k, Stored(v))
          /\ meta' = Put(meta, k, [dt |-> Stored(v).k, flag |-> "field"])
          /\ UNCHANGED tags
